@@ -9,36 +9,89 @@ IV the receiver computes at which point, and that a rejection is inert.
 -/
 namespace IsoMdl.Session
 
-/-- Device: a message is accepted iff it is the peer's next message of this session, unmodified. -/
+/-- Device: a message is accepted iff it is the peer's next message of this session, unmodified
+(and the receive counter is not used up: at `u32::MAX` the code refuses instead of wrapping, so
+"next" is plain successor on naturals — no message is ever accepted under a wrapped counter). -/
 theorem C06_device_accept_iff (d : Device) (fr : Bool) (s n : Nat) (p : Payload) (t : Bool) :
     (d.handleRequest (.ct fr s n p t)).2 = .accepted p ↔
-      (fr = true ∧ s = d.sess ∧ n = (bump d.decCtr).toNat ∧ t = false) := by
-  rw [← accepts_iff]
-  cases h : accepts true d.sess (bump d.decCtr) fr s n t
-  · rw [handleRequest_rej d fr s n p t h]; simp
-  · rw [handleRequest_acc d fr s n p t h]; simp
+      (fr = true ∧ s = d.sess ∧ n = d.decCtr.toNat + 1 ∧ n < 2^32 ∧ t = false) := by
+  cases hm : atMax d.decCtr
+  · have hlt := not_atMax _ hm
+    have hb := bump_toNat _ hlt
+    cases h : accepts true d.sess (bump d.decCtr) fr s n t
+    · rw [handleRequest_rej d fr s n p t hm h]
+      have := mt (accepts_iff true d.sess (bump d.decCtr) fr s n t).mpr (by simp [h])
+      rw [hb] at this
+      simp only [reduceCtorEq, false_iff]
+      intro ⟨a, b, c, _, e⟩; exact this ⟨a, b, c, e⟩
+    · rw [handleRequest_acc d fr s n p t hm h]
+      have := (accepts_iff true d.sess (bump d.decCtr) fr s n t).mp h
+      rw [hb] at this
+      simp only [true_iff]
+      obtain ⟨a, b, c, e⟩ := this
+      exact ⟨a, b, c, by omega, e⟩
+  · rw [handleRequest_exhausted d fr s n p t hm]
+    have := (atMax_iff _).mp hm
+    simp only [reduceCtorEq, false_iff]
+    intro ⟨_, _, c, l, _⟩; omega
 
 /-- Reader: same, for the device-to-reader direction. -/
 theorem C06_reader_accept_iff (r : Reader) (fr : Bool) (s n : Nat) (p : Payload) (t : Bool) :
     (r.handleResponse (.ct fr s n p t)).2 = .accepted p ↔
-      (fr = false ∧ s = r.sess ∧ n = (bump r.decCtr).toNat ∧ t = false) := by
-  rw [← accepts_iff]
-  cases h : accepts false r.sess (bump r.decCtr) fr s n t
-  · rw [handleResponse_rej r fr s n p t h]; simp
-  · rw [handleResponse_acc r fr s n p t h]; simp
+      (fr = false ∧ s = r.sess ∧ n = r.decCtr.toNat + 1 ∧ n < 2^32 ∧ t = false) := by
+  cases hm : atMax r.decCtr
+  · have hlt := not_atMax _ hm
+    have hb := bump_toNat _ hlt
+    cases h : accepts false r.sess (bump r.decCtr) fr s n t
+    · rw [handleResponse_rej r fr s n p t hm h]
+      have := mt (accepts_iff false r.sess (bump r.decCtr) fr s n t).mpr (by simp [h])
+      rw [hb] at this
+      simp only [reduceCtorEq, false_iff]
+      intro ⟨a, b, c, _, e⟩; exact this ⟨a, b, c, e⟩
+    · rw [handleResponse_acc r fr s n p t hm h]
+      have := (accepts_iff false r.sess (bump r.decCtr) fr s n t).mp h
+      rw [hb] at this
+      simp only [true_iff]
+      obtain ⟨a, b, c, e⟩ := this
+      exact ⟨a, b, c, by omega, e⟩
+  · rw [handleResponse_exhausted r fr s n p t hm]
+    have := (atMax_iff _).mp hm
+    simp only [reduceCtorEq, false_iff]
+    intro ⟨_, _, c, l, _⟩; omega
+
+/-- every ciphertext has exactly two outcomes: accepted with its own payload, or decryption error -/
+theorem C06_device_outcomes (d : Device) (fr : Bool) (s n : Nat) (p : Payload) (t : Bool) :
+    (d.handleRequest (.ct fr s n p t)).2 = .accepted p ∨
+    (d.handleRequest (.ct fr s n p t)).2 = .decryptionError := by
+  cases hm : atMax d.decCtr
+  · cases h : accepts true d.sess (bump d.decCtr) fr s n t
+    · right; rw [handleRequest_rej d fr s n p t hm h]
+    · left; exact handleRequest_acc d fr s n p t hm h
+  · right; rw [handleRequest_exhausted d fr s n p t hm]
+
+theorem C06_reader_outcomes (r : Reader) (fr : Bool) (s n : Nat) (p : Payload) (t : Bool) :
+    (r.handleResponse (.ct fr s n p t)).2 = .accepted p ∨
+    (r.handleResponse (.ct fr s n p t)).2 = .decryptionError := by
+  cases hm : atMax r.decCtr
+  · cases h : accepts false r.sess (bump r.decCtr) fr s n t
+    · right; rw [handleResponse_rej r fr s n p t hm h]
+    · left; rw [handleResponse_acc r fr s n p t hm h]
+  · right; rw [handleResponse_exhausted r fr s n p t hm]
 
 /-- Anything else that is a ciphertext is reported as a decryption error … -/
 theorem C06_device_reject (d : Device) (fr : Bool) (s n : Nat) (p : Payload) (t : Bool)
-    (h : ¬ (fr = true ∧ s = d.sess ∧ n = (bump d.decCtr).toNat ∧ t = false)) :
+    (h : ¬ (fr = true ∧ s = d.sess ∧ n = d.decCtr.toNat + 1 ∧ n < 2^32 ∧ t = false)) :
     (d.handleRequest (.ct fr s n p t)).2 = .decryptionError := by
-  rw [← accepts_iff] at h
-  rw [handleRequest_rej d fr s n p t (by simpa using h)]
+  rcases C06_device_outcomes d fr s n p t with ha | hr
+  · exact absurd ((C06_device_accept_iff d fr s n p t).mp ha) h
+  · exact hr
 
 theorem C06_reader_reject (r : Reader) (fr : Bool) (s n : Nat) (p : Payload) (t : Bool)
-    (h : ¬ (fr = false ∧ s = r.sess ∧ n = (bump r.decCtr).toNat ∧ t = false)) :
+    (h : ¬ (fr = false ∧ s = r.sess ∧ n = r.decCtr.toNat + 1 ∧ n < 2^32 ∧ t = false)) :
     (r.handleResponse (.ct fr s n p t)).2 = .decryptionError := by
-  rw [← accepts_iff] at h
-  rw [handleResponse_rej r fr s n p t (by simpa using h)]
+  rcases C06_reader_outcomes r fr s n p t with ha | hr
+  · exact absurd ((C06_reader_accept_iff r fr s n p t).mp ha) h
+  · exact hr
 
 /-- … and a rejection is inert: the outcome carries no payload, the device state (in particular:
 not Signing, nothing prepared), its encryption counter and session are untouched; only the
@@ -51,9 +104,11 @@ theorem C06_device_reject_inert (d : Device) (m : Msg)
   | garbage => exact ⟨rfl, rfl, rfl⟩
   | noData => exact ⟨rfl, rfl, rfl⟩
   | ct fr s n p t =>
-    cases hacc : accepts true d.sess (bump d.decCtr) fr s n t
-    · rw [handleRequest_rej d fr s n p t hacc]; exact ⟨rfl, rfl, rfl⟩
-    · rw [handleRequest_acc d fr s n p t hacc] at h; simp at h
+    cases hm : atMax d.decCtr
+    · cases hacc : accepts true d.sess (bump d.decCtr) fr s n t
+      · rw [handleRequest_rej d fr s n p t hm hacc]; exact ⟨rfl, rfl, rfl⟩
+      · rw [handleRequest_acc d fr s n p t hm hacc] at h; simp at h
+    · rw [handleRequest_exhausted d fr s n p t hm]; exact ⟨rfl, rfl, rfl⟩
 
 theorem C06_reader_reject_inert (r : Reader) (m : Msg) :
     (r.handleResponse m).1.encCtr = r.encCtr ∧ (r.handleResponse m).1.sess = r.sess := by
@@ -61,11 +116,13 @@ theorem C06_reader_reject_inert (r : Reader) (m : Msg) :
   | garbage => exact ⟨rfl, rfl⟩
   | noData => exact ⟨rfl, rfl⟩
   | ct fr s n p t =>
-    cases hacc : accepts false r.sess (bump r.decCtr) fr s n t
-    · rw [handleResponse_rej r fr s n p t hacc]; exact ⟨rfl, rfl⟩
-    · rw [handleResponse_acc r fr s n p t hacc]; exact ⟨rfl, rfl⟩
+    cases hm : atMax r.decCtr
+    · cases hacc : accepts false r.sess (bump r.decCtr) fr s n t
+      · rw [handleResponse_rej r fr s n p t hm hacc]; exact ⟨rfl, rfl⟩
+      · rw [handleResponse_acc r fr s n p t hm hacc]; exact ⟨rfl, rfl⟩
+    · rw [handleResponse_exhausted r fr s n p t hm]; exact ⟨rfl, rfl⟩
 
-/-- Corollaries spelled as in the statement (device side; `hlt`: counter below overflow). -/
+/-- Corollaries spelled as in the statement (device side). -/
 theorem C06_tampered_rejected (d : Device) (fr : Bool) (s n : Nat) (p : Payload) :
     (d.handleRequest (.ct fr s n p true)).2 = .decryptionError :=
   C06_device_reject d fr s n p true (by simp)
@@ -81,29 +138,38 @@ theorem C06_reflected_rejected (d : Device) (s n : Nat) (p : Payload) (t : Bool)
 /-- replay / reordering: any message whose counter is not the next one is rejected; in
 particular every message the device has already attempted (`n ≤ decCtr`). -/
 theorem C06_out_of_sequence_rejected (d : Device) (fr : Bool) (s n : Nat) (p : Payload) (t : Bool)
-    (hlt : d.decCtr.toNat + 1 < 2^32) (h : n ≠ d.decCtr.toNat + 1) :
+    (h : n ≠ d.decCtr.toNat + 1) :
     (d.handleRequest (.ct fr s n p t)).2 = .decryptionError :=
-  C06_device_reject d fr s n p t (by
-    intro ⟨_, _, h3, _⟩; rw [bump_toNat _ hlt] at h3; exact h h3)
+  C06_device_reject d fr s n p t (by intro ⟨_, _, h3, _⟩; exact h h3)
+
+/-- once the receive counter is used up nothing is accepted any more (no wrap-around to IV 0) -/
+theorem C06_exhausted_rejects_all (d : Device) (fr : Bool) (s n : Nat) (p : Payload) (t : Bool)
+    (hm : d.decCtr.toNat = 2^32 - 1) :
+    (d.handleRequest (.ct fr s n p t)).2 = .decryptionError :=
+  C06_device_reject d fr s n p t (by intro ⟨_, _, h3, h4, _⟩; omega)
 
 /-- the receive counter never goes back: it moves by exactly one per decrypt attempt. -/
 theorem C06_decCtr_step (d : Device) (m : Msg) :
-    (d.handleRequest m).1.decCtr = d.decCtr ∨ (d.handleRequest m).1.decCtr = bump d.decCtr := by
+    (d.handleRequest m).1.decCtr = d.decCtr ∨
+    (d.handleRequest m).1.decCtr.toNat = d.decCtr.toNat + 1 := by
   cases m with
   | garbage => left; rfl
   | noData => left; rfl
   | ct fr s n p t =>
-    right
-    cases hacc : accepts true d.sess (bump d.decCtr) fr s n t
-    · rw [handleRequest_rej d fr s n p t hacc]
-    · simp only [Device.handleRequest, hacc, if_true]
-      cases p <;> rfl
+    cases hm : atMax d.decCtr
+    · right
+      rw [← bump_toNat _ (not_atMax _ hm)]
+      cases hacc : accepts true d.sess (bump d.decCtr) fr s n t
+      · rw [handleRequest_rej d fr s n p t hm hacc]
+      · simp only [Device.handleRequest, hm, hacc, if_true, Bool.false_eq_true, if_false]
+        cases p <;> simp
+    · left; rw [handleRequest_exhausted d fr s n p t hm]
 
 /-- non-vacuity: an honest exchange is accepted; the same ciphertext replayed, a modified one,
 one from another session and a reflected one are all rejected and leave the state alone. -/
 example :
     let w := World.established 5
-    let (r1, m) := w.rdr.newRequest
+    let (r1, m) := (w.rdr.newRequest.1, w.rdr.newRequest.2.getD .garbage)
     let (d1, o1) := w.dev.handleRequest m
     o1 = .accepted .request ∧
     (d1.handleRequest m).2 = .decryptionError ∧
